@@ -365,3 +365,106 @@ def rng_sample(rng, n, k):
         j = rng.below(len(idx))
         out.append(idx.pop(j))
     return out
+
+
+# ------------------------------------------------------------------------------------------
+# distance suites
+# ------------------------------------------------------------------------------------------
+
+BACKENDS = ["dispatch", "pseudo32", "pseudo64", "sse2", "sse41", "avx2"]
+
+
+def dist_header_cases(tier):
+    """Header parts enumerated exhaustively: 256 x 256 each."""
+    cases = []
+    for a in range(256):
+        for b in range(256):
+            cases.append("dlen %d %d" % (a, b))
+            cases.append("dq %d %d" % (a, b))
+            cases.append("dck1 %d %d" % (a, b))
+    for x in range(16):
+        for y in range(16):
+            cases.append("ring %d %d 16" % (x, y))
+    for x in range(0, 256, 3):
+        for y in range(0, 256, 5):
+            cases.append("ring %d %d 0" % (x, y))
+    return cases
+
+
+def dist_body_cases(rng, tier):
+    """Every byte position x all 65536 byte pairs against random backgrounds (per backend in thorough),
+    plus random and adversarial whole bodies."""
+    cases = []
+    for size in (12, 32, 64):
+        bgs = 1 if tier == "quick" else 4
+        positions = range(size) if tier != "quick" else sorted(set([0, 3, 4, 7, 8, 11, size - 1, size // 2] + [rng.below(size) for _ in range(2)]))
+        for pos in positions:
+            for _ in range(bgs):
+                ba, bb = bytearray(rng.bytes(size)), bytearray(rng.bytes(size))
+                if rng.chance(1, 3):
+                    bb = bytearray(ba)
+                step = 1 if tier != "quick" else 1
+                for x in range(0, 256, step):
+                    for y in range(256):
+                        if tier == "quick" and (x * 256 + y + pos) % 3:
+                            continue
+                        a, b = bytearray(ba), bytearray(bb)
+                        a[pos], b[pos] = x, y
+                        be = "dispatch" if tier == "quick" else BACKENDS[(x + y) % len(BACKENDS)]
+                        cases.append("dbody %d %s %s %s" % (size, be, hx(a), hx(b)))
+        # every backend on random / adversarial bodies
+        n = 300 if tier == "quick" else 20000
+        for be in BACKENDS:
+            for _ in range(n):
+                k = rng.below(6)
+                if k == 0:
+                    a, b = bytes(size), bytes([0xFF] * size)
+                elif k == 1:
+                    a = bytes([rng.choice([0x00, 0x55, 0xAA, 0xFF])] * size)
+                    b = bytes([rng.choice([0x00, 0x55, 0xAA, 0xFF])] * size)
+                elif k == 2:
+                    a = rng.bytes(size)
+                    b = bytearray(a)
+                    b[rng.below(size)] ^= 1 << rng.below(8)
+                    b = bytes(b)
+                else:
+                    a, b = rng.bytes(size), rng.bytes(size)
+                cases.append("dbody %d %s %s %s" % (size, be, hx(a), hx(b)))
+    return cases
+
+
+def dist_whole_cases(rng, tier):
+    cases = []
+    n = 400 if tier == "quick" else 50000
+    for v in VNAMES:
+        cases.append("maxdist %s default" % v)
+        cases.append("maxdist %s nolength" % v)
+        cases.append("partmax %s" % v)
+        size = VARIANTS[v][3]
+        ck = VARIANTS[v][0]
+        for _ in range(n):
+            a = bytearray(random_bin(rng, v))
+            k = rng.below(5)
+            if k == 0:
+                b = bytearray(a)
+            elif k == 1:
+                b = bytearray(a)
+                b[rng.below(size)] ^= 1 << rng.below(8)
+            elif k == 2:
+                b = bytearray(a)
+                for i in range(ck):
+                    b[i] ^= rng.choice([0x80, 0x01, 0xFF, 0x00])
+            else:
+                b = bytearray(random_bin(rng, v))
+            for mode in ("default", "nolength"):
+                cases.append("cmp %s %s %s %s" % (v, hx(a), hx(b), mode))
+        # the maximum is attained
+        a = bytearray(size)
+        b = bytearray([0xFF] * size)
+        a[ck], b[ck] = 0, 128
+        a[ck + 1], b[ck + 1] = 0x00, 0x88
+        for i in range(ck):
+            a[i], b[i] = 1, 2
+        cases.append("cmp %s %s %s default" % (v, hx(a), hx(b)))
+        cases.append("cmp %s %s %s nolength" % (v, hx(a), hx(b)))
+    return cases
